@@ -46,7 +46,7 @@ namespace ST
         {
             m_chars = is_heap() ? move.m_chars : m_stack;
             std::char_traits<char>::copy(m_stack, move.m_stack, ST_STACK_STRING_SIZE);
-            move.m_alloc = 0;
+            move.reset_moved_from();
         }
 
         string_stream &operator=(string_stream &&move) noexcept
@@ -58,7 +58,7 @@ namespace ST
             m_size = move.m_size;
             m_chars = is_heap() ? move.m_chars : m_stack;
             std::char_traits<char>::copy(m_stack, move.m_stack, ST_STACK_STRING_SIZE);
-            move.m_alloc = 0;
+            move.reset_moved_from();
             return *this;
         }
 
@@ -332,6 +332,15 @@ namespace ST
         bool is_heap() const noexcept
         {
             return m_alloc > ST_STACK_STRING_SIZE;
+        }
+
+        // Leave a moved-from stream as a valid empty stream on its own stack
+        // buffer (a zero capacity could never be doubled by expand_buffer)
+        void reset_moved_from() noexcept
+        {
+            m_chars = m_stack;
+            m_alloc = ST_STACK_STRING_SIZE;
+            m_size = 0;
         }
 
         void expand_buffer(size_t added_size)
